@@ -646,3 +646,94 @@ Theorem gen_meta_md_chain_eq : forall lower c,
          end).
 Proof. exact gen_md_chain_eq_l. Qed.
 Print Assumptions gen_meta_md_chain_eq.
+
+(* ================================================================================================================
+   Wave 7: read-back ROUTES and reading HISTORIES.  Object level (Model/C02MapObj.v): the three look-up containers of
+   every NexusTaxonSymbolMapper are objects in a heap; a lazy tree iterator keeps its mapper alive while other readers
+   create and use theirs.  Generated on every run from the source (py/dv/gen_c02mapobj.py -> Gen/C02MapObjGen.v):
+   the class-level bindings of the tables, the effects of __init__ on them along every path, the effects of every
+   other method, and the look-up-by-number switch each Newick entry point passes to the mapper it creates. *)
+From DV Require Import Model.C02Model Model.C02MapObj Gen.C02MapObjGen Model.C02Routes Proofs.C02MapObj Proofs.C02MapObjGen.
+Open Scope nat_scope.
+
+(* the class body binds none of the tables, and along every path of the constructor that does not raise, every table is
+   bound to a newly created container before anything is changed in place *)
+Theorem gen_mapobj_class_tables : gen_class_tables = [].
+Proof. exact gen_class_tables_l. Qed.
+Print Assumptions gen_mapobj_class_tables.
+
+Theorem gen_mapobj_init_ok : forallb init_ok gen_init_paths = true.
+Proof. exact gen_init_ok_l. Qed.
+Print Assumptions gen_mapobj_init_ok.
+
+Theorem gen_mapobj_constructor_ok : forall table (init : list (eff table)),
+  In (map (shape_of table) init) gen_init_paths -> init_ok (map (shape_of table) init) = true.
+Proof. exact gen_constructor_ok_l. Qed.
+Print Assumptions gen_mapobj_constructor_ok.
+
+(* every Newick entry point (NewickReader._read behind TreeList.get/.read, Tree.get, DataSet.get; the Newick tree iterator
+   behind Tree.yield_from_files and TreeArray.read; the NEXUS iterator's Newick fall-back), with the switch it passes to
+   its mapper, is the reader of newick_roundtrip / treelist_roundtrip *)
+Theorem newick_routes_agree : forall L parse_len lower r o ns text,
+  read_newick_route L parse_len lower r o ns text = read_newick L parse_len lower o ns text.
+Proof. exact newick_routes_agree_l. Qed.
+Print Assumptions newick_routes_agree.
+
+(* ... and it matters: with look-up by taxon number the text "(b,1);" does not read back as the taxa b and 1 *)
+Theorem newick_by_number_refuted :
+  read_result_eqb (read_newick_with str (fun _ => None) (fun s => s) true bn_opts [] bn_text)
+                  (read_newick str (fun _ => None) (fun s => s) bn_opts [] bn_text) = false
+  /\ exists ts, read_newick str (fun _ => None) (fun s => s) bn_opts [] bn_text = Ok (ts, [[98%Z]; [49%Z]]).
+Proof. exact newick_by_number_refuted_l. Qed.
+Print Assumptions newick_by_number_refuted.
+
+(* no_table_shared + object_level_refines_value_level, over ALL histories: from a world without mappers (whatever the class
+   level holds), after any sequence of mapper creations (constructor effects init_ok) and method calls on live mappers
+   (ANY effects: binding newly created containers, changing the own ones in place), the history runs without error, no
+   container is reached by two mappers or through two fields, none is a class-level one, and every mapper sees in every
+   field exactly what the value-level model computes for it alone *)
+Theorem mapper_histories_separated : forall table (w0 : world table) l,
+  start_ok _ w0 -> hist_ok _ 0 l ->
+  exists w', run_ops _ w0 l = Some w'
+    /\ sep _ w' /\ all_complete _ w'
+    /\ length (vrun_ops _ [] l) = length (w_objs _ w')
+    /\ (forall j v, nth_error (vrun_ops _ [] l) j = Some v -> forall g, view _ w' j g = v g)
+    /\ (forall i j oi oj f g a, nth_error (w_objs _ w') i = Some oi -> nth_error (w_objs _ w') j = Some oj ->
+          resolve _ w' oi f = Some a -> resolve _ w' oj g = Some a ->
+          (i = j /\ f = g) /\ (forall h, oget (w_cls _ w') h <> Some a)).
+Proof. exact history_from_start_l. Qed.
+Print Assumptions mapper_histories_separated.
+
+(* multi_object_frame: one operation (a new mapper, or any method of mapper i) leaves what every OTHER mapper sees
+   unchanged, and changes mapper i's view as the value-level model says *)
+Theorem mapper_frame : forall table (w : world table) o,
+  sep _ w -> all_complete _ w ->
+  (match o with ONew init => init_ok (map (shape_of _) init) = true | OCall i _ => i < length (w_objs _ w) end) ->
+  exists w', run_op _ w o = Some w' /\ sep _ w' /\ all_complete _ w'
+    /\ (forall j g, j < length (w_objs _ w) -> (match o with OCall i _ => j <> i | ONew _ => True end) -> view _ w' j g = view _ w j g)
+    /\ (match o with
+        | ONew init => length (w_objs _ w') = S (length (w_objs _ w))
+                       /\ forall g, view _ w' (length (w_objs _ w)) g = vrun_effs _ (fun _ => None) init g
+        | OCall i l => length (w_objs _ w') = length (w_objs _ w)
+                       /\ forall g, view _ w' i g = vrun_effs _ (view _ w i) l g
+        end).
+Proof. exact frame_l. Qed.
+Print Assumptions mapper_frame.
+
+Theorem mapper_history_example :
+  start_ok _ ex_world /\ hist_ok _ 0 ex_hist /\ In (map (shape_of nat) ex_init) gen_init_paths
+  /\ (match run_ops _ ex_world ex_hist with
+      | Some w => (view _ w 0 FTok, view _ w 1 FTok, view _ w 1 FLab)
+      | None => (None, None, None)
+      end) = (Some 7, Some 0, Some 10).
+Proof. exact history_example_l. Qed.
+Print Assumptions mapper_history_example.
+
+(* with class-level tables and a constructor that changes them in place (not init_ok) the statement is false *)
+Theorem class_level_tables_refuted :
+  start_ok _ bad_world /\ init_ok (map (shape_of nat) bad_init) = false
+  /\ exists w1 w2, run_ops _ bad_world [ONew bad_init; ONew bad_init] = Some w1
+       /\ run_op _ w1 (OCall 1 [EMut FTok (fun t => t + 7)]) = Some w2
+       /\ view _ w1 0 FTok = Some 0 /\ view _ w2 0 FTok = Some 7.
+Proof. exact class_level_tables_refuted_l. Qed.
+Print Assumptions class_level_tables_refuted.
